@@ -118,7 +118,6 @@ func checkC02(r *Result) {
 	c02Links(r)
 }
 
-
 var infraCollMethods = map[string]bool{"Set": true, "Remove": true, "Has": true, "Walk": true, "Iterate": true, "Clear": true, "MatchExact": true, "Next": true, "Peek": true, "IterateRaw": true}
 var infraFuncs = map[string]bool{
 	"(cosmossdk.io/collections/indexes.MultiIterator).PrimaryKey": true, "cosmossdk.io/collections/indexes.CollectValues": true,
